@@ -571,7 +571,9 @@ func init() {
 		}
 		_, hasMTI := m.GetFields()[0]
 		// (a message whose MTI was never set packs without one and cannot be read back: outside the property)
-		if c, err := m.Clone(); err == nil && hasMTI && len(unrepresentableIDs(spec)) == 0 {
+		// (nor can a message in which a positional composite is populated with gaps - subfields 1 and 3 without 2: its
+		// encoding reads back as subfields 1 and 2. Such states arise when a write follows a failed Unpack directly)
+		if c, err := m.Clone(); err == nil && hasMTI && len(unrepresentableIDs(spec)) == 0 && positionalFromFront(spec, m) {
 			if o := obs(m); o != o1 {
 				fs = append(fs, Finding{"c15-clone-changes-original", "Clone changed what the original message shows"})
 			}
@@ -695,3 +697,47 @@ func init() {
 }
 
 var _ = strings.Join
+
+// positionalFromFront: in every populated data element every positional composite, at any depth, is populated from the
+// front of its order (the domain of the round trip: DESIGN.md section 2.2)
+func positionalFromFront(spec *Sx, m *iso8583.Message) bool {
+	var ok func(sp, val *Sx) bool
+	ok = func(sp, val *Sx) bool {
+		if sp.Head() != "C" || val == nil || val.Head() != "C" || len(val.List) < 2 {
+			return true
+		}
+		a := sp.Args()
+		subSpec := map[string]*Sx{}
+		var tags []string
+		for _, s := range a[3].List {
+			t := string(s.List[0].Hex())
+			subSpec[t] = s.List[1]
+			tags = append(tags, t)
+		}
+		present := map[string]*Sx{}
+		for _, e := range val.List[1].List {
+			present[string(e.List[0].Hex())] = e.List[1]
+		}
+		if a[2].Head() == "T" && a[2].Args()[1].Atom == "nil" {
+			order := refSort(a[2].Args()[4].Atom, tags)
+			for i, t := range order {
+				if _, there := present[t]; there != (i < len(present)) {
+					return false
+				}
+			}
+		}
+		for t, v := range present {
+			if ss, known := subSpec[t]; known && !ok(ss, v) {
+				return false
+			}
+		}
+		return true
+	}
+	for _, f := range spec.Args()[2].List {
+		id := f.List[0].Int()
+		if v := observedVal(m, id); v != nil && !ok(f.List[1], v) {
+			return false
+		}
+	}
+	return true
+}
